@@ -107,3 +107,30 @@ Section SFP.
     - intros. reflexivity.
   Qed.
 End SFP.
+
+(** ** membership (C06): the model's covering test is the membership definition of the property text (SlabSpec.slab_member /
+    fault_member), evaluated on the reported distances and the locally interpolated thickness, top truncation and total
+    length, for points that have a foot on the trench (finite distances) and a non-degenerate local thickness *)
+From WB Require Import SlabSpec.
+Section Membership.
+  Context {F : Type} {NF : Num F}.
+
+  Theorem covers_is_membership (lf : @line_feature F) (q : @query F) :
+    lf_covers lf q =
+    (let pd := lf_distances lf q in
+     let '(th, tr, tot, _, _) := lf_local lf pd in
+     (flt (fabs (pd_distance pd)) finf || flt (pd_along pd) finf)
+     && negb (flt (fabs th) (fmul f2 feps)) && negb (flt th tr)
+     && (if lf_fault lf
+         then fault_member (pd_distance pd) (pd_along pd) th tot (q_depth q) (lf_min lf) (lf_max lf) true
+         else slab_member (pd_distance pd) (pd_along pd) tr th tot (q_depth q) (lf_min lf) (lf_max lf) true)).
+  Proof.
+    unfold lf_covers. cbn zeta.
+    destruct (lf_local lf (lf_distances lf q)) as [[[[th tr] tot] cur] nxt].
+    unfold slab_member, fault_member.
+    destruct (fle (q_depth q) (lf_max lf)); destruct (fle (lf_min lf) (q_depth q));
+      destruct (flt (fabs (pd_distance (lf_distances lf q))) finf || flt (pd_along (lf_distances lf q)) finf);
+      destruct (flt (fabs th) (fmul f2 feps)); destruct (flt th tr); destruct (lf_fault lf); cbn [andb negb];
+      rewrite ?andb_true_r, ?andb_false_r; try reflexivity.
+  Qed.
+End Membership.
